@@ -3,7 +3,7 @@
    PM c, Fin c) that the controller accepts, for any workflow W and any task-outcome oracle. *)
 From Coq Require Import List Bool Arith.
 Import ListNotations.
-Require Import V.Restart.Model V.Sched.Model V.Sched.Proofs V.Sched.Sleep V.Sched.SleepProofs.
+Require Import V.Restart.Model V.Sched.Model V.Sched.Proofs V.Sched.Sleep V.Sched.SleepProofs V.Sched.Patch V.Sched.PatchProofs.
 
 (* Whenever a component's task is launched for the first time, every component it consumes from has
    been observed finished and is in a final state — except a same-stage producer of a repeating
@@ -137,6 +137,80 @@ Example C01_sleep_nonvacuous :
           [Ev Start; Ev Tick; Ev (Exit 0); Ev (PM 0); Ev (Fin 0); Sleep; Ev Tick; Wake; Ev Tick; Ev Tick] with
   | Some a, Some b => runs (dy (base a) 1) = 0 /\ runs (dy (base a) 2) = 0 /\ asleep a = true /\
                       runs (dy (base b) 1) = 1 /\ runs (dy (base b) 2) = 1 /\ done (base b) = [0]
+  | _, _ => False
+  end.
+Proof. vm_compute. repeat split. Qed.
+
+(* ---- live patch (coq/Sched/Patch.v): while the controller sleeps the experiment may be switched, any number of
+   times, to a new workflow that holds further components and gives existing components further producers.  A first
+   launch is guarded by the workflow IN FORCE WHEN IT HAPPENS: a component that was given a patched-in producer
+   before its launch waits for that producer too. *)
+Theorem C01_patch_launch_guard : forall outcome W0 evs W ss ev ss' c,
+  prun outcome W0 sstate0 evs = Some (W, ss) -> sstep W outcome ss ev = Some ss' ->
+  runs (dy (base ss) c) = 0 -> 0 < runs (dy (base ss') c) ->
+  asleep ss = false /\
+  (forall p, In p (preds (cmp W c)) ->
+     ((In p (done (base ss)) /\ is_fin (pstate (base ss) p) = true) \/
+      (is_subject W c p = true /\ 0 < runs (dy (base ss) p) /\ finish_called (dy (base ss) p) = false)) /\
+     is_failed (pstate (base ss) p) = false /\
+     (is_aggregate (cmp W c) = false -> is_shutdown (pstate (base ss) p) = false)).
+Proof.
+  intros outcome W0 evs W ss ev ss' c Hr Hs H0 H1.
+  destruct (patched_step_guard outcome evs W0 W ss ev ss' Hr Hs) as [G F]. destruct (G c H0 H1) as [G1 G2].
+  split.
+  - destruct (asleep ss) eqn:A; [|reflexivity]. exfalso. rewrite (F eq_refl c H0) in H1. inversion H1.
+  - intros p Hp. split; [exact (G1 p Hp)|split].
+    + destruct (is_failed (pstate (base ss) p)) eqn:E; [|reflexivity].
+      rewrite (shutdown_rule_failed W (base ss) c p Hp E) in G2. discriminate.
+    + intros Ha. destruct (is_shutdown (pstate (base ss) p)) eqn:E; [|reflexivity].
+      rewrite (shutdown_rule_shutdown W (base ss) c p Hp Ha E) in G2. discriminate.
+Qed.
+Print Assumptions C01_patch_launch_guard.
+
+(* done => final, final states are stable, and a consumer blocked by a failed (or, if it does not aggregate, a
+   shut-down) producer stays blocked whatever is patched in later *)
+Theorem C01_patch_stability : forall outcome W0 evs W ss evs' W' ss',
+  prun outcome W0 sstate0 evs = Some (W, ss) -> prun outcome W ss evs' = Some (W', ss') ->
+  (forall c, In c (done (base ss)) -> is_fin (pstate (base ss) c) = true) /\
+  (forall c f, ctl (dy (base ss) c) = Some f -> ctl (dy (base ss') c) = Some f) /\
+  (forall c p, In p (preds (cmp W c)) ->
+     (ctl (dy (base ss) p) = Some Failed \/ (is_aggregate (cmp W c) = false /\ ctl (dy (base ss) p) = Some Shutdown)) ->
+     runs (dy (base ss) c) = 0 -> runs (dy (base ss') c) = 0).
+Proof.
+  intros outcome W0 evs W ss evs' W' ss' Hr Hr'.
+  destruct (prun_ok outcome evs W0 sstate0 W ss SInv0 Hr) as [S _]. pose proof S as [[_ [I2 _]] _].
+  destruct (prun_ok outcome evs' W ss W' ss' S Hr') as [_ X].
+  split; [exact I2|split; [intros c f Hc; exact (x_ctl _ _ X c f Hc)|]].
+  intros c p Hp Hb H0. exact (pblocked_forever outcome evs' W ss W' ss' c p S Hr' Hp Hb H0).
+Qed.
+Print Assumptions C01_patch_stability.
+
+(* a run that is never patched is a run of the sleeping controller (the theorems above are instances) *)
+Theorem C01_patch_conservative : forall outcome W evs,
+  prun outcome W sstate0 (map PE evs) =
+  match srun W outcome sstate0 evs with Some ss => Some (W, ss) | None => None end.
+Proof. intros outcome W evs. apply prun_unpatched. Qed.
+Print Assumptions C01_patch_conservative.
+
+(* non-vacuity: first -> sim -> monitor; while first runs the workflow is patched: a new component `extra` (3) is
+   added and sim is made to consume from it.  sim is launched only after BOTH first and extra are done; without the
+   patch it is launched as soon as first is done *)
+Definition exW_patched : list comp :=
+  [ {| stage := 0; is_repeat := false; is_aggregate := false; is_replica := false; preds := []; cshutdown_on := [KnownIssue]; restart_on := []; max_r := 0 |};
+    {| stage := 0; is_repeat := false; is_aggregate := false; is_replica := false; preds := [0; 3]; cshutdown_on := []; restart_on := []; max_r := 0 |};
+    {| stage := 0; is_repeat := true; is_aggregate := false; is_replica := false; preds := [1]; cshutdown_on := []; restart_on := []; max_r := 0 |};
+    {| stage := 0; is_repeat := false; is_aggregate := false; is_replica := false; preds := []; cshutdown_on := []; restart_on := []; max_r := 0 |} ].
+Example C01_patch_nonvacuous :
+  extends exW exW_patched = true /\
+  match prun (fun _ _ => Success) exW sstate0
+          [PE (Ev Start); PE (Ev Tick); PE Sleep; PPatch exW_patched; PE Wake; PE (Ev Tick);
+           PE (Ev (Exit 0)); PE (Ev (PM 0)); PE (Ev (Fin 0)); PE (Ev Tick); PE (Ev Tick)],
+        prun (fun _ _ => Success) exW sstate0
+          [PE (Ev Start); PE (Ev Tick); PE Sleep; PPatch exW_patched; PE Wake; PE (Ev Tick);
+           PE (Ev (Exit 0)); PE (Ev (PM 0)); PE (Ev (Fin 0)); PE (Ev Tick);
+           PE (Ev (Exit 3)); PE (Ev (PM 3)); PE (Ev (Fin 3)); PE (Ev Tick); PE (Ev Tick)] with
+  | Some (_, a), Some (_, b) => runs (dy (base a) 3) = 1 /\ runs (dy (base a) 1) = 0 /\
+                                runs (dy (base b) 1) = 1 /\ runs (dy (base b) 2) = 1
   | _, _ => False
   end.
 Proof. vm_compute. repeat split. Qed.
